@@ -110,7 +110,7 @@ PROPS = {
                 "observed: String, Unmarshal, IsNesting, Traverse over 9 paths, Condition.Len/IsNesting, no-nesting Push count, Transfer, IsEqual in both directions, "
                 "ConvertStack/ConvertCondition per element; the two observations must coincide and equal the model's; about one nested Stack, nested Condition and "
                 "Condition-held Stack in six carries an Unmarshaler (ids 1-3, id 3 returns an error too), never the receiver: Unmarshal is observed with its error class "
-                "against the closure-aware walk (C12_unmarshalP)",
+                "against the closure-aware walk (C12_unmarshalP); Condition-in-Condition chains to depth 3 (every form, Unmarshalers on the way, a Stack below): expanded, not handed through (F43)",
         "modelled": COMMON_MODELLED,
         "assumptions": ["IsEqual across forms (C12_isEqual*): user EqualityPolicy closures are form-blind (HookBlind: hook p (erase a) (erase b) = hook p a b), "
                         "or no EqualityPolicy is installed in the receiver's tree (C12_isEqual_noPolicy); no hypothesis on []any leaves; "
@@ -131,7 +131,8 @@ PROPS = {
                 "argument-less variadic form) of validity, presentation, equality, marshal and unmarshal closures on Stacks of every kind (also case-folded, BASIC) and on "
                 "Conditions; after every call Valid (error or not, and whose), String, IsEqual against an equal copy and against a different value, Unmarshal, Err; Marshal "
                 "as an operation; a third of the Stack receivers hold a nested Stack / Condition / Condition-held Stack (any form) with an Unmarshaler of its own, a "
-                "quarter of the Condition receivers a Stack expression with one (C14_unmarshal_nested_*)",
+                "quarter of the Condition receivers a Stack expression with one, a fifth a Condition expression with one (holding a value, a Stack or a Condition with one again: "
+                "C14_unmarshal_nested_*, _held_cond*: F43)",
         "modelled": COMMON_MODELLED,
         "assumptions": ["policies are pure functions of the offered value"],
     },
@@ -168,7 +169,8 @@ PROPS = {
         "lean": ["Stackage.Props.C04", "Stackage.Props.C04b"],
         "streams": [{"name": "roundtrip", "quick": 3000, "thorough": 60000}],
         "rule": "random trees (depth <= 3 quick / 5 thorough) of AND/OR/NOT/LIST/BASIC stacks (empty ones, folded labels, capacities included), Conditions whose "
-                "expression is a primitive, a Stack or a Condition, primitive and nil leaves (also leaves equal to label words); Unmarshal, then Marshal into a zero Stack "
+                "expression is a primitive, a Stack or a Condition (Condition in Condition to depth 3, each inner one independently native / alias / alias with String / "
+                "pointer, Stacks below them: F43), primitive and nil leaves (also leaves equal to label words); Unmarshal, then Marshal into a zero Stack "
                 "through both calling conventions (Marshal(u...) and Marshal(u)); compared: the unmarshalled slice, the reconstructed tree, the fixpoint (Unmarshal again, "
                 "labels case-insensitively) and IsEqual(original, reconstruction) where no capacity / case-folding is involved; non-trivial = tree with a nested node",
         "modelled": COMMON_MODELLED,
